@@ -37,7 +37,7 @@ def model(wd, name, rmsgs, progs, break_inner=False, panic_wake=False, liveness=
 def gen_scenario(rnd, i, stop):
     n = rnd.randrange(1, MAXR + 1)
     k = rnd.randrange(1, MAXP + 1)
-    msgs = [rnd.choice([0, 1, 1, 2, 3, 5]) for _ in range(n)]
+    msgs = [rnd.choice([0, 1, 1, 2, 3, 5, 5, 40, 50]) for _ in range(n)]
     kinds = [rnd.choice(["cb", "cb", "xbeam"]) for _ in range(n)]
     progs = [[] for _ in range(k)]
     for r in range(1, n + 1):
@@ -50,7 +50,7 @@ def gen_scenario(rnd, i, stop):
     elif stop == "dropproxy":
         dropproxy = True
     return {"id": i, "seed": rnd.randrange(1 << 30), "msgs": msgs, "kinds": kinds, "progs": progs,
-            "dropproxy": dropproxy, "presend": [rnd.random() < 0.4 for _ in range(n)], "stop": stop}
+            "dropproxy": dropproxy, "presend": [rnd.choice([0, 0, 1, m]) for m in msgs], "stop": stop}
 
 
 KEEP = {"h.scenario", "h.route", "h.add", "h.send", "h.sent", "h.senderdrop", "h.senderdropped", "h.dropproxy",
